@@ -266,6 +266,53 @@ func c07LongHeader(r *rand.Rand, offers []Bs) []Bs {
 	return lines
 }
 
+// c07PrefixCase: offers one of which spells a proper prefix of another's media type (json / json-patch+json, xml / xml-dtd,
+// csv / csv-schema), in both orders, asked for by exact name; matching is by equality, never by prefix.
+func c07PrefixCase(r *rand.Rand) (lines []Bs, offers []Bs) {
+	fam := [][2]string{{"application/json", "application/json-patch+json"}, {"application/json", "application/jsonl"},
+		{"application/xml", "application/xml-dtd"}, {"text/csv", "text/csv-schema"}, {"text/plain", "text/plain2"}}[r.Intn(5)]
+	short, long := fam[0], fam[1]
+	switch r.Intn(3) {
+	case 0:
+		offers = []Bs{Bs(long), Bs(short)}
+	case 1:
+		offers = []Bs{Bs(short), Bs(long)}
+	default:
+		offers = []Bs{Bs(long)} // the short name matches nothing here
+	}
+	if r.Intn(3) == 0 {
+		offers = append(offers, Bs("image/png"))
+	}
+	ask := []string{short, long, short + ";q=0.9, " + long + ";q=0.1", long + ";q=0.9, " + short + ";q=0.1", short[:len(short)-1]}[r.Intn(5)]
+	return []Bs{Bs(ask)}, offers
+}
+
+// c07TieCase: the API default (application/json) is offered BEFORE another type and the Accept header ties them (absent,
+// wildcard, type wildcard, both at one weight): Respond offers the default last, so the other type wins.
+func c07TieCase(r *rand.Rand) (lines []Bs, offers []Bs) {
+	other := []string{"application/xml", "text/plain", "application/csv", "image/png"}[r.Intn(4)]
+	switch r.Intn(3) {
+	case 0:
+		offers = []Bs{"application/json", Bs(other)}
+	case 1:
+		offers = []Bs{"text/html", "application/json", Bs(other)}
+	default:
+		offers = []Bs{"application/json", Bs(other), "text/csv"}
+	}
+	switch r.Intn(5) {
+	case 0: // no Accept header
+	case 1:
+		lines = []Bs{"*/*"}
+	case 2:
+		lines = []Bs{"application/*"}
+	case 3:
+		lines = []Bs{Bs("application/json;q=0.8, " + other + ";q=0.8")}
+	default:
+		lines = []Bs{Bs(other + ", application/json")}
+	}
+	return
+}
+
 // c07DupHeader lists one range twice with two weights and puts a competitor for another offer between the weights
 // (or level with the higher one), in every order, on one line or two.
 func c07DupHeader(r *rand.Rand, offers []Bs) []Bs {
@@ -347,7 +394,10 @@ func (c07) Gen(r *rand.Rand, tier string, i int) any {
 			def = Bs(c07Media(r, false))
 		}
 		offers := c07Offers(r)
-		if len(offers) > 0 && r.Intn(10) == 0 {
+		if r.Intn(12) == 0 {
+			ls, offers = c07PrefixCase(r)
+			ext = false
+		} else if len(offers) > 0 && r.Intn(10) == 0 {
 			ls, ext = c07LongHeader(r, offers), false
 		} else if len(offers) > 1 && r.Intn(8) == 0 {
 			ls, ext = c07DupHeader(r, offers), false
@@ -372,6 +422,14 @@ func (c07) Gen(r *rand.Rand, tier string, i int) any {
 			}
 		}
 		code := []int{0, 0, 201, 204, 204}[r.Intn(5)]
+		if r.Intn(8) == 0 {
+			l2, o2 := c07PrefixCase(r)
+			return c07In{Kind: "handler", Lines: l2, Offers: o2, Code: code}
+		}
+		if r.Intn(6) == 0 {
+			l2, o2 := c07TieCase(r)
+			return c07In{Kind: "handler", Lines: l2, Offers: o2, Code: code}
+		}
 		if len(offers) > 0 && r.Intn(8) == 0 {
 			return c07In{Kind: "handler", Lines: c07LongHeader(r, offers), Offers: offers, Code: code}
 		}
@@ -528,7 +586,8 @@ func (c07) Coq(inAny any, obsAny any) string {
 	case "neg":
 		return fmt.Sprintf("CNeg %s %s %s %s %s", lines, coqBytesList(bsList(in.Offers)), coqBytes(string(in.Default)), coqBool(obs.Panicked), coqBytes(string(obs.R)))
 	case "handler":
-		return fmt.Sprintf("CHandler %s %s %s %d %s", lines, coqBytesList(bsList(obs.Route)), coqBool(obs.Panicked), obs.Status, coqBool(obs.Ran))
+		// a history of one request: status, whether the handler ran, and the Content-Type it was answered with
+		return fmt.Sprintf("CHandlerSeq %s %s [(%s, %d, %s, %s)]", coqBytesList(bsList(obs.Route)), coqBool(obs.Panicked), lines, obs.Status, coqBool(obs.Ran), coqBytes(string(obs.CT)))
 	case "hseq":
 		steps := make([]string, len(obs.Seq))
 		for i, st := range obs.Seq {
